@@ -8,7 +8,7 @@
 From Coq Require Import NArith List Bool Arith.
 From RQ Require Import Base.Outcome Base.Ints Base.ListX Base.Vec Spec.Bits Model.Octet Model.Kernels
   Proofs.OctetProofs Proofs.VecLemmas Proofs.KernelsProofs Proofs.KernelsMulProofs
-  Proofs.KernelsBinProofs Proofs.KernelsDispatch Proofs.KernelsAccess.
+  Proofs.KernelsBinProofs Proofs.KernelsDispatch Proofs.KernelsAccess Model.Slab Proofs.SlabAccess.
 Import ListNotations.
 Open Scope N_scope.
 
@@ -121,6 +121,40 @@ Theorem C12_kernels_never_out_of_bounds : forall octets other bits c,
   ((0 < length octets)%nat -> is_ok (fused_addassign_mul_scalar_binary_avx2 octets bits c) = true).
 Proof. exact kernels_never_out_of_bounds. Qed.
 
+(* the slab's paired borrow (SymbolSlab::get_pair_mut, the only other unsafe block that builds slices from raw
+   pointers): whenever the call does not panic, the mutable dest slice and the shared src slice are each
+   symbol_size bytes long, lie inside the count * symbol_size bytes of the storage, and do not overlap --
+   for every mapping (also one that is not a permutation), every pair of logical indices and every symbol size *)
+Theorem C12_slab_pair_in_bounds_and_disjoint : forall s dest src o1 w1 o2 w2,
+  slab_pair_ranges s dest src = Ok ((o1, w1), (o2, w2)) ->
+  w1 = N.of_nat (sl_ss s) /\ w2 = N.of_nat (sl_ss s) /\
+  o1 + w1 <= slab_bytes s /\ o2 + w2 <= slab_bytes s /\
+  (o1 + w1 <= o2 \/ o2 + w2 <= o1).
+Proof. exact pair_ranges_safe. Qed.
+
+(* the byte-offset computation and the symbol-level model used by C09 / C06 / C01 take the same decisions: both
+   panic or neither does, and the symbols handed out are the ones stored at those offsets *)
+Theorem C12_slab_pair_agrees_with_model : forall s dest src,
+  (forall sym, In sym (sl_data s) -> length sym = sl_ss s) ->
+  match slab_pair s dest src, slab_pair_ranges s dest src with
+  | Ok (pd, d, v), Ok ((o1, w1), (o2, _)) =>
+      o1 = pd * N.of_nat (sl_ss s) /\ N.of_nat (length d) = w1 /\ N.of_nat (length v) = w1 /\
+      exists ps, o2 = ps * N.of_nat (sl_ss s) /\ nth_ok (sl_data s) (N.to_nat ps) = Ok v /\
+                 nth_ok (sl_data s) (N.to_nat pd) = Ok d
+  | Panic _, Panic _ => True
+  | _, _ => False
+  end.
+Proof. exact pair_ranges_agree. Qed.
+
+(* non-vacuity: a slab of 4 symbols of 3 bytes whose mapping is NOT a permutation (entry 7 is out of range, entry
+   1 is repeated): in-range distinct physical symbols are handed out, everything else is refused *)
+Example C12_slab_pair_example :
+  let s := mkSlab [[1;2;3];[4;5;6];[7;8;9];[10;11;12]] 3 (Some [2; 1; 1; 7]) in
+  slab_pair_ranges s 0 1 = Ok ((6, 3), (3, 3)) /\
+  slab_pair_ranges s 1 2 = Panic PAssert /\ slab_pair_ranges s 0 3 = Panic PAssert /\
+  slab_pair_ranges s 0 4 = Panic PIndex.
+Proof. vm_compute. repeat split; reflexivity. Qed.
+
 (* non-vacuity: the access lists of concrete calls are non-empty and pass the boolean check *)
 Definition ex_lens : list nat := [0; 1; 15; 16; 17; 31; 33; 63; 64; 65; 130]%nat.
 Definition ex_buf (n : nat) : list N := map (fun i => N.of_nat (i * 7 mod 256)) (seq 0 n).
@@ -156,3 +190,5 @@ Print Assumptions C12_tables_in_bounds.
 Print Assumptions C12_table_lookups_in_bounds.
 Print Assumptions C12_oob_is_panic.
 Print Assumptions C12_kernels_never_out_of_bounds.
+Print Assumptions C12_slab_pair_in_bounds_and_disjoint.
+Print Assumptions C12_slab_pair_agrees_with_model.
